@@ -149,10 +149,45 @@ def units(tier):
         names = tables.concrete_message_names(v)
         for i in range(0, len(names), 6):
             us.append((v, tuple(names[i:i + 6])))
+    # order dependence across versions: adjacent versions, both directions
+    for a, b in zip(VERSIONS, VERSIONS[1:]):
+        for va, vb in ((a, b), (b, a)):
+            common_names = [n for n in tables.concrete_message_names(vb) if n in common.libs()[va].MESSAGES]
+            if tier == 'quick':
+                common_names = common_names[::2]
+            for i in range(0, len(common_names), 12):
+                us.append(('cross', va, vb, tuple(common_names[i:i + 12])))
     return us
 
 
+def cross_unit(va, vb, names, res):
+    """the structures of version vb parsed right after the same-named structures of version va in one process:
+    nothing the group finder learnt from one version may reach another (group names recur across versions with
+    different layouts)"""
+    from hl7apy.parser import parse_message
+    for name in names:
+        if st.structure_info(vb, name)['anomalies']:
+            continue
+        if not st.structure_info(va, name)['anomalies']:
+            for label, tree in st.instances(va, name, ('all', 'rep2')):
+                nm = st.flatten(tree)
+                nm = ['MSH'] + [n for n in nm if n != 'MSH']
+                try:
+                    parse_message('\r'.join([st.msh_line(va, name)] + nm[1:]), validation_level=TOLERANT, find_groups=True)
+                except Exception:
+                    pass
+        for label, tree in st.instances(vb, name, ('all', 'rep2')):
+            if tree:
+                check_instance(res, vb, name, label, tree)
+    res.dims['cross-version pairs'] += 1
+
+
 def run_unit(unit, tier):
+    if unit[0] == 'cross':
+        res = Result()
+        cross_unit(unit[1], unit[2], unit[3], res)
+        res.expected_size = res.enumerated
+        return res
     v, names = unit
     res = Result()
     kinds = ('required', 'all', 'rep2', 'opt')
